@@ -219,7 +219,7 @@ def run(ctx):
     for t in TARGETS:
         h = hits(seen, t)
         p = cg.path(seen, h[0]) if h else []
-        ctx.check(not h, "K9-ldap-no-write", p[0] if p else DO_OP, "reaches:" + short(t),
+        ctx.check(not h, "K9-ldap-no-write", base_fn(p[0]) if p else DO_OP, "reaches:" + short(t),
                   f"no path from {len(ldap_srcs)} LDAP bodies ({len(seen)} reachable) to {short(t)}",
                   f"the LDAP gateway can reach {t}: " + " -> ".join(p) + " — LDAP must not be able to open a write transaction",
                   )
